@@ -1,5 +1,6 @@
 import MosnVerif.Model.ConfigCodec
 import MosnVerif.Lemmas.GoDuration
+import MosnVerif.Lemmas.ConfigMeta
 /-! Lemmas behind C19: the generic codec round trip. -/
 namespace MosnVerif.Model.ConfigCodec
 open MosnVerif.Model MosnVerif.Model.GoDuration
@@ -124,6 +125,21 @@ theorem rt : (sh : Shape) → keysOK sh = true → (v : CVal) → wt sh v = true
       rw [decode_ptr e _ (encode_ne_null e v hpe hwl), rt e hk v hwl]
       rfl
     | _ :: _ :: _, hlen, _ => simp at hlen
+  | .metaS i fs, hk, v, hw => by
+    cases v <;> simp [wt] at hw
+    rename_i vs
+    simp only [keysOK, Bool.and_eq_true] at hk
+    obtain ⟨k, hg⟩ := metaAt_get fs i hk.1
+    have hw2 : wtF fs (metaFix i vs) = true := wtF_set fs vs i k true metaShape _ hw.2 hg (wt_fromMeta _)
+    have := rtF fs hk.2 [] (metaFix i vs) hw2 (by intro k _ m hm; simp at hm)
+    simp only [List.nil_append] at this
+    simp [encode, decode, norm, this]
+  | .boxed e, hk, v, hw => by
+    cases v <;> simp [wt] at hw
+    rename_i vs
+    simp only [keysOK] at hk
+    match vs, hw with
+    | [v], hw => simp [encode, decode, norm, normL, rt e hk v hw]
 theorem rtF : (fs : Fields) → keysOKF fs = true → (pre : List (String × Json)) → (vs : List CVal) → wtF fs vs = true →
     (∀ k ∈ fs.keys, noMatch pre k) → decodeF fs (pre ++ encodeF fs vs) = some (normF fs vs)
   | .nil, _, pre, vs, hw, _ => by cases vs <;> simp [wtF] at hw; simp [decodeF, normF]
@@ -226,6 +242,25 @@ theorem en : (sh : Shape) → (v : CVal) → wt sh v = true → encode sh (norm 
     | v :: r, hw =>
       simp only [wtL, Bool.and_eq_true] at hw
       simp [norm, normL, encode, en e v hw.2.1]
+  | .metaS i fs, v, hw => by
+    cases v <;> simp [wt] at hw
+    rename_i vs
+    obtain ⟨k, hg⟩ := metaAt_get fs i hw.1
+    have hlt : i < vs.length := by rw [wtF_length fs vs hw.2]; exact get?_lt fs i _ hg
+    have hw2 : wtF fs (metaFix i vs) = true := wtF_set fs vs i k true metaShape _ hw.2 hg (wt_fromMeta _)
+    have hget : (metaFix i vs)[i]? = some (fromMeta (mdOf vs[i]?)) := by simp [metaFix, hlt]
+    have hn := normF_get fs _ i k true metaShape _ hw2 hg hget
+    rw [norm_fromMeta] at hn
+    have hfix : metaFix i (normF fs (metaFix i vs)) = normF fs (metaFix i vs) := by
+      unfold metaFix at hn ⊢
+      rw [hn, mdOf_fromMeta _ (mdOf_nodup _)]
+      exact set_self _ i _ hn
+    simp only [norm, encode, hfix, enF fs _ hw2]
+  | .boxed e, v, hw => by
+    cases v <;> simp [wt] at hw
+    rename_i vs
+    match vs, hw with
+    | [v], hw => simp [norm, normL, encode, en e v hw]
 theorem enF : (fs : Fields) → (vs : List CVal) → wtF fs vs = true → encodeF fs (normF fs vs) = encodeF fs vs
   | .nil, vs, _ => by cases vs <;> simp [encodeF]
   | .cons k o sh r, [], hw => by simp [wtF] at hw
@@ -257,6 +292,8 @@ theorem wt_zero : (sh : Shape) → keysOK sh = true → wt sh (zero sh) = true
   | .slice e, _ => by simp [zero, wt, wtL]
   | .map e, _ => by simp [zero, wt, wtM]
   | .ptr e, h => by simp only [keysOK, Bool.and_eq_true] at h; simp [zero, wt, wtL, h.1]
+  | .metaS i fs, h => by simp only [keysOK, Bool.and_eq_true] at h; simp [zero, wt, h.1, wtF_zero fs h.2]
+  | .boxed e, h => by simp only [keysOK] at h; simp [zero, wt, wt_zero e h]
 theorem wtF_zero : (fs : Fields) → keysOKF fs = true → wtF fs (zeroF fs) = true
   | .nil, _ => by simp [zeroF, wtF]
   | .cons k o sh r, h => by
@@ -338,6 +375,18 @@ theorem dw : (sh : Shape) → keysOK sh = true → (j : Json) → (v : CVal) →
       cases h1 : decode e j with
       | none => simp [h1] at h
       | some v' => simp [h1] at h; subst h; simp [wt, wtL, hk.1, dw e hk.2 j v' h1]
+  | .metaS i fs, hk, j, v, h => by
+    simp only [keysOK, Bool.and_eq_true] at hk
+    cases j <;> simp [decode] at h
+    · subst h; simp [wt, hk.1, wtF_zero fs hk.2]
+    · obtain ⟨vs, hvs, rfl⟩ := h
+      simp [wt, hk.1, dwF fs hk.2 _ vs hvs]
+  | .boxed e, hk, j, v, h => by
+    simp only [keysOK] at hk
+    simp only [decode] at h
+    cases h1 : decode e j with
+    | none => simp [h1] at h
+    | some v' => simp [h1] at h; subst h; simp [wt, dw e hk j v' h1]
 theorem dwF : (fs : Fields) → keysOKF fs = true → (ms : List (String × Json)) → (vs : List CVal) →
     decodeF fs ms = some vs → wtF fs vs = true
   | .nil, _, ms, vs, h => by simp [decodeF] at h; subst h; simp [wtF]
